@@ -447,7 +447,14 @@ func (w *verifC18World) start(from int64, meta []byte) bool {
 	w.bl = bl
 	w.done = make(chan error, 1)
 	eng := w.eng
-	go func() { w.done <- bl.Run(from, meta, nil, eng) }()
+	go func() {
+		defer func() {
+			if r := recover(); r != nil { // a panic inside Run is a failed Run, not a dead driver
+				w.done <- fmt.Errorf("panic in Run: %v", r)
+			}
+		}()
+		w.done <- bl.Run(from, meta, nil, eng)
+	}()
 	select {
 	case <-w.eng.ready:
 		return true
